@@ -258,7 +258,7 @@ def exp_dis(w):
     return f
 
 
-def o2_semantics(chk, prog, n, shard_bound, template=None):
+def o2_semantics(chk, prog, n, shard_bound, template=None, prefix='C13/O2', only_cmds=None):
     """template: None (all n bytes symbolic) or (prefix, ndigits, suffix): concrete text around symbolic bytes."""
     if template is not None:
         n = len(template[0]) + template[1] + len(template[2])
@@ -328,7 +328,7 @@ def o2_semantics(chk, prog, n, shard_bound, template=None):
 
         if panic is not None:
             # classify the panic by input class
-            key = 'C13/O2/panic/%s' % (CMD_NAMES[kref] if kref is not None else 'non-command')
+            key = prefix + '/panic/%s' % (CMD_NAMES[kref] if kref is not None else 'non-command')
             if kref == 0:
                 # known class: key does not fit i64
                 big = z3.UGT(digits_value(arg), z3.BitVecVal((1 << 63) - 1, 80))
@@ -354,9 +354,9 @@ def o2_semantics(chk, prog, n, shard_bound, template=None):
         if not handled:
             if kref is not None:
                 # allowed only outside the documented core L_k
-                witness(refL[kref].is_match(bs), 'C13/O2/not-handled/%s' % CMD_NAMES[kref],
+                witness(refL[kref].is_match(bs), prefix + '/not-handled/%s' % CMD_NAMES[kref],
                         'documented %s command is not handled by the pooler' % CMD_NAMES[kref])
-            witness(z3.Not(z3.And(*same.values())), 'C13/O2/state-changed-by-non-command',
+            witness(z3.Not(z3.And(*same.values())), prefix + '/state-changed-by-non-command',
                     'a query that is not handled changes routing state')
             return 'none'
         tup = res.variants['Some'][0]
@@ -364,10 +364,10 @@ def o2_semantics(chk, prog, n, shard_bound, template=None):
         value = tup.fields[1]
         seen_cmds.add(cmd)
         if kref is None:
-            witness(True, 'C13/O2/handled-non-command', 'a query outside the command language is handled as %s' % CMD_NAMES[cmd])
+            witness(True, prefix + '/handled-non-command', 'a query outside the command language is handled as %s' % CMD_NAMES[cmd])
             return 'bad'
         if cmd != kref:
-            witness(True, 'C13/O2/wrong-command', '%s command handled as %s' % (CMD_NAMES[kref], CMD_NAMES[cmd]))
+            witness(True, prefix + '/wrong-command', '%s command handled as %s' % (CMD_NAMES[kref], CMD_NAMES[cmd]))
             return 'bad'
         exp = dict(same)
         vexp = None
@@ -399,7 +399,7 @@ def o2_semantics(chk, prog, n, shard_bound, template=None):
                 z3.And(word_is(arg, 'off'), opt_is(qr_pre, True, BV(1, 0))),
                 z3.And(word_is(arg, 'default'), opt_is(qr_pre, False)))
         for fld, cnd in exp.items():
-            witness(z3.Not(cnd), 'C13/O2/%s/state-%s' % (K, fld), '%s leaves %s in a state other than documented' % (K, fld))
+            witness(z3.Not(cnd), prefix + '/%s/state-%s' % (K, fld), '%s leaves %s in a state other than documented' % (K, fld))
         # SHOW values
         vb = items(ip_, value)
         if kref == 2:
@@ -412,7 +412,7 @@ def o2_semantics(chk, prog, n, shard_bound, template=None):
             dv = digits_value(vb, 80) if all(True for _ in vb) else None
             alld = z3.And(*[z3.And(z3.UGE(b.z(), 48), z3.ULE(b.z(), 57)) for b in vb]) if vb else z3.BoolVal(False)
             c_some = z3.Implies(sh.discr.z() == 1, z3.And(alld, z3.Extract(63, 0, dv) == sh.variants['Some'][0].z()))
-            witness(z3.Not(z3.And(c_none, c_some)), 'C13/O2/ShowShard/value', 'SHOW SHARD does not report the selected shard')
+            witness(z3.Not(z3.And(c_none, c_some)), prefix + '/ShowShard/value', 'SHOW SHARD does not report the selected shard')
         elif kref == 4:
             def is_s(w):
                 return conj([val_eq(ip_, a, BV(8, ord(ch))) for a, ch in zip(vb, w)]) if len(vb) == len(w) else False
@@ -428,7 +428,7 @@ def o2_semantics(chk, prog, n, shard_bound, template=None):
                 z3.Implies(z3.And(rd == 1, rp == 1), zb(is_s('replica'))),
                 z3.Implies(z3.And(rd == 0, eff_qpe), zb(is_s('auto'))),
                 z3.Implies(z3.And(rd == 0, z3.Not(eff_qpe)), zb(is_s('any'))))
-            witness(z3.Not(want), 'C13/O2/ShowServerRole/value', 'SHOW SERVER ROLE does not report the selected role')
+            witness(z3.Not(want), prefix + '/ShowServerRole/value', 'SHOW SERVER ROLE does not report the selected role')
         elif kref == 6:
             def is_s(w):
                 return conj([val_eq(ip_, a, BV(8, ord(ch))) for a, ch in zip(vb, w)]) if len(vb) == len(w) else False
@@ -437,7 +437,7 @@ def o2_semantics(chk, prog, n, shard_bound, template=None):
                 return x if not isinstance(x, bool) else z3.BoolVal(x)
             eff = z3.If(st.pre.discr.z() == 1, st.pre.variants['Some'][0].z() == 1, st.pool_pre.z() == 1)
             want = z3.And(z3.Implies(eff, zb(is_s('on'))), z3.Implies(z3.Not(eff), zb(is_s('off'))))
-            witness(z3.Not(want), 'C13/O2/ShowPrimaryReads/value', 'SHOW PRIMARY READS does not report the setting')
+            witness(z3.Not(want), prefix + '/ShowPrimaryReads/value', 'SHOW PRIMARY READS does not report the setting')
         if len(ob.samples) < 4:
             m = ip_.model_for()
             settings, pre, q = model_state(m, st, qb)
